@@ -76,11 +76,21 @@ func NewModules() *Modules {
 // e.g., foo.yang is named foo).  An error is returned if the file is not
 // found or there was an error parsing the file.
 func (ms *Modules) Read(name string) error {
+	npaths := len(ms.Path)
 	name, data, err := ms.findFile(name)
 	if err != nil {
 		return err
 	}
-	return ms.Parse(data, name)
+	if err := ms.Parse(data, name); err != nil {
+		// A file that could not be loaded does not make its directory
+		// a place to look for further modules.
+		for _, p := range ms.Path[npaths:] {
+			delete(ms.pathMap, p)
+		}
+		ms.Path = ms.Path[:npaths]
+		return err
+	}
+	return nil
 }
 
 // Parse parses data as YANG source and adds it to ms.  The name should reflect
